@@ -12,7 +12,7 @@ use patronus::system::TransitionSystem;
 use pvcore::bv::Val;
 use pvcore::run::*;
 use pvcore::sysgen::*;
-use pvcore::terms::product;
+use pvcore::terms::{T, Ty, product};
 use pvcore::tsref::Ts;
 use rayon::prelude::*;
 use serde_json::{Value, json};
@@ -110,13 +110,20 @@ fn smt_quote(name: &str) -> String {
 }
 
 /// one (system, entry step, number of unrolls) check; returns Err((class, what)) on a violation
-fn check_one(spec: &SysSpec, entry: u64, unrolls: u64, rep: &Report) -> Result<bool, (String, String)> {
+fn check_one(spec: &SysSpec, entry: u64, unrolls: u64, inc_out: bool, rep: &Report) -> Result<bool, (String, String)> {
     let mut ctx = Context::default();
+    let with_out;
+    let spec = if inc_out {
+        with_out = with_outputs(spec);
+        &with_out
+    } else {
+        spec
+    };
     let built = spec.build(&mut ctx);
     let sys: TransitionSystem = built.sys;
     let mut rec = RecCtx { text: String::new(), commands: vec![] };
     let run = catch(|| -> patronus::smt::Result<UnrollSmtEncoding> {
-        let mut enc = UnrollSmtEncoding::new(&mut ctx, &sys, false);
+        let mut enc = UnrollSmtEncoding::new(&mut ctx, &sys, inc_out);
         enc.define_header(&mut rec)?;
         enc.init_at(&mut ctx, &mut rec, entry)?;
         for _ in 0..unrolls {
@@ -218,6 +225,8 @@ fn check_one(spec: &SysSpec, entry: u64, unrolls: u64, rep: &Report) -> Result<b
     let cap = 4096u64;
     let mut compared = 0u64;
     let mut steps = 0u64;
+    let (mut outputs_compared, mut outputs_skipped) = (0u64, 0u64);
+    let out_ok: Vec<bool> = if inc_out { sys.outputs.iter().map(|o| catch(|| enc.get_signal_at(&ctx, o.expr, entry)).is_ok()).collect() } else { vec![] };
     let mut checker = |trace: &[Frame]| -> Result<(), (String, String)> {
         // bind declared constants
         let mut bind: HashMap<&str, Val> = HashMap::new();
@@ -269,6 +278,21 @@ fn check_one(spec: &SysSpec, entry: u64, unrolls: u64, rep: &Report) -> Result<b
                 scr_eval(*b, &want, &format!("bad {k}"), j)?;
                 compared += 1;
             }
+            // outputs are signals of the encoding only when it was built with include_outputs
+            if inc_out {
+                // (get_signal_at documents access to inputs, states, constraints and bad states only: an output
+                // for which it has no symbol - a literal also used elsewhere - is skipped, not reported)
+                for (k, o) in sys.outputs.iter().enumerate() {
+                    if !out_ok[k] {
+                        outputs_skipped += 1;
+                        continue;
+                    }
+                    let want = ts.eval(o.expr, &fr.st, &fr.inp);
+                    scr_eval(o.expr, &want, &format!("output {k}"), j)?;
+                    compared += 1;
+                    outputs_compared += 1;
+                }
+            }
         }
         Ok(())
     };
@@ -280,9 +304,44 @@ fn check_one(spec: &SysSpec, entry: u64, unrolls: u64, rep: &Report) -> Result<b
         rep.cap_hit("more than 4096 executions for some (system, entry, depth): only the first 4096 evaluated");
     }
     rep.add("traces_validated_against_impl", n_exec);
+    rep.add("output_symbols_compared", outputs_compared);
+    rep.add("output_symbols_skipped_no_symbol", outputs_skipped);
     rep.add("states", steps);
     rep.add("transitions", compared);
     Ok(has_define)
+}
+
+/// The family's systems mostly have no outputs. For the `include_outputs` encoding every system gets outputs
+/// that alias what the other roots already use (hash-consing makes them the same nodes): the first next and
+/// init expressions, the first bad state and constraint, a bare state, a bare input, and a literal. Existing
+/// outputs are kept.
+pub fn with_outputs(spec: &SysSpec) -> SysSpec {
+    let mut sp = spec.clone();
+    let mut add = |sp: &mut SysSpec, t: T| {
+        if matches!(t.ty(), Ty::Bv(_)) {
+            let n = format!("vo{}", sp.outputs.len());
+            sp.outputs.push((n, t));
+        }
+    };
+    if let Some(t) = spec.states.iter().find_map(|s| s.next.clone()) {
+        add(&mut sp, t);
+    }
+    if let Some(t) = spec.bads.first().cloned() {
+        add(&mut sp, t);
+    }
+    if let Some(s) = spec.states.first() {
+        add(&mut sp, T::Sym(s.name.clone(), s.ty));
+    }
+    if let Some((n, ty)) = spec.inputs.first() {
+        add(&mut sp, T::Sym(n.clone(), *ty));
+    }
+    if let Some(t) = spec.states.iter().find_map(|s| s.init.clone()) {
+        add(&mut sp, t);
+    }
+    if let Some(t) = spec.constraints.first().cloned() {
+        add(&mut sp, t);
+    }
+    sp
 }
 
 fn scr_term(script: &Script, name: &str) -> Option<std::rc::Rc<smtref::ast::Term>> {
@@ -301,21 +360,26 @@ pub fn run(opts: &Opts, rep: &Report) {
     let budget = Budget::new(opts.budget_s);
     let specs = family(tier, opts.seed);
     let max_unroll = if tier.is_thorough() { 3 } else { 2 };
-    let mut work: Vec<(usize, u64, u64)> = vec![];
+    let mut work: Vec<(usize, u64, u64, bool)> = vec![];
     for (i, _) in specs.iter().enumerate() {
-        for entry in [0u64, 1, 3] {
-            for u in 0..=max_unroll {
-                work.push((i, entry, u));
+        // the encoding with and without the outputs as signals (what bmc uses is `false`); without outputs
+        // in the system the two are the same encoding
+        for inc_out in [false, true] {
+            for entry in [0u64, 1, 3] {
+                for u in 0..=max_unroll {
+                    work.push((i, entry, u, inc_out));
+                }
+            }
+            // two-digit step numbers: entry at 9 and 10, and a long unrolling from the initial state
+            if specs[i].name.starts_with("X-deep") {
+                work.extend([(i, 9, 2, inc_out), (i, 10, 1, inc_out), (i, 0, 11, inc_out)]);
             }
         }
-        // two-digit step numbers: entry at 9 and 10, and a long unrolling from the initial state
-        if specs[i].name.starts_with("X-deep") {
-            work.extend([(i, 9, 2), (i, 10, 1), (i, 0, 11)]);
-        }
     }
+    rep.add("cases_with_outputs_included", work.iter().filter(|w| w.3).count() as u64);
     rep.add("cases_enumerated", work.len() as u64);
     let stop = std::sync::atomic::AtomicBool::new(false);
-    work.par_iter().enumerate().for_each(|(order, (i, entry, u))| {
+    work.par_iter().enumerate().for_each(|(order, (i, entry, u, inc_out))| {
         if stop.load(std::sync::atomic::Ordering::Relaxed) {
             return;
         }
@@ -325,21 +389,21 @@ pub fn run(opts: &Opts, rep: &Report) {
         }
         let spec = &specs[*i];
         rep.add("evaluations", 1);
-        match check_one(spec, *entry, *u, rep) {
+        match check_one(spec, *entry, *u, *inc_out, rep) {
             Ok(nontrivial) => {
                 if nontrivial {
-                    rep.distinct_hashes(&[hash64(&format!("{}|{entry}|{u}", spec.to_json()))]);
+                    rep.distinct_hashes(&[hash64(&format!("{}|{entry}|{u}|{inc_out}", spec.to_json()))]);
                 }
                 if order % 5003 == 0 {
-                    rep.sample(json!({"system": spec.to_json(), "entry": entry, "unrolls": u}));
+                    rep.sample(json!({"system": spec.to_json(), "entry": entry, "unrolls": u, "include_outputs": inc_out}));
                 }
             }
             Err((class, what)) => {
                 let entry_class = if *entry == 0 { "from-init" } else { "from-free-state" };
                 rep.violation(Violation {
                     sig: format!("C04|{}|{}|{}", class, entry_class, deviation(spec)),
-                    what: format!("{} [init_at({entry}) + {u} unroll(s)] {what}", deviation(spec)),
-                    case: json!({"sys": spec.to_json(), "entry": entry, "unrolls": u}),
+                    what: format!("{} [init_at({entry}) + {u} unroll(s){}] {what}", deviation(spec), if *inc_out { ", outputs included" } else { "" }),
+                    case: json!({"sys": spec.to_json(), "entry": entry, "unrolls": u, "include_outputs": inc_out}),
                     order: order as u64,
                 });
             }
@@ -354,13 +418,14 @@ pub fn replay(case: &Value, rep: &Report) {
     let spec = SysSpec::from_json(&case["sys"]).expect("system");
     let entry = case["entry"].as_u64().unwrap_or(0);
     let u = case["unrolls"].as_u64().unwrap_or(0);
+    let inc_out = case["include_outputs"].as_bool().unwrap_or(false);
     // print the recorded script for the reader
     {
         let mut ctx = Context::default();
         let built = spec.build(&mut ctx);
         let mut rec = RecCtx { text: String::new(), commands: vec![] };
         let _ = catch(|| {
-            let mut enc = UnrollSmtEncoding::new(&mut ctx, &built.sys, false);
+            let mut enc = UnrollSmtEncoding::new(&mut ctx, &built.sys, inc_out);
             let _ = enc.init_at(&mut ctx, &mut rec, entry);
             for _ in 0..u {
                 let _ = enc.unroll(&mut ctx, &mut rec);
@@ -368,7 +433,7 @@ pub fn replay(case: &Value, rep: &Report) {
         });
         println!("--- recorded script ---\n{}", rec.text);
     }
-    if let Err((class, what)) = check_one(&spec, entry, u, rep) {
+    if let Err((class, what)) = check_one(&spec, entry, u, inc_out, rep) {
         let entry_class = if entry == 0 { "from-init" } else { "from-free-state" };
         rep.violation(Violation { sig: format!("C04|{}|{}|{}", class, entry_class, deviation(&spec)), what, case: case.clone(), order: 0 });
     }
